@@ -205,6 +205,9 @@ def run(rec, tier, seed):
         # a structure of a single atom (one ion per cell), replicated, with a one-line charge file
         dict(pair='single-swap', opts=dict(find=True, replace=True, replicate=[2, 1, 1], charges=True), copies=1, decoys=0),
         dict(pair='single-swap', opts=dict(charges=True), copies=1, decoys=0),
+        # no --atol: the default is the API's default (copies distorted by up to 0.045 A per coordinate: some are within 0.05, some are not)
+        dict(pair='swap-element', opts=dict(find=True, replace=True), noise=0.045, copies=5),
+        dict(pair='swap-element', opts=dict(find=True), noise=0.045, copies=5),
         # pair potentials for elements whose symbol is a prefix of other symbols
         dict(pair='bsi-swap', opts=dict(find=True, replace=True, pp=True), outfmts=['lmpdat']),
         dict(pair='bsi-swap', opts=dict(pp=True), outfmts=['lmpdat']),
